@@ -1,6 +1,8 @@
 import CssVerif.Lib.Proto
 import CssVerif.Model.Tok
 import CssVerif.Model.TokSpec
+import CssVerif.Lemmas.TokLex2Sep
+import CssVerif.Model.TokPush
 open CssVerif CssVerif.Proto CssVerif.Tok CssVerif.Gen.C05
 
 def showStop : Stop → String
@@ -28,11 +30,97 @@ def reByName (n : String) : Option Re :=
 def flag? (w : String) : Option Bool :=
   if w == "1" then some true else if w == "0" then some false else none
 
+/-- string items, flattened: `0 c` ordinary, `1 d` escape, `2 k` continuation, `3 k d n ds…` hex escape + line break -/
+def sitems? : Nat → List Nat → Option (List SItem)
+  | _, [] => some []
+  | 0, _ => none
+  | fuel + 1, 0 :: c :: rest => (sitems? fuel rest).map (SItem.ord c :: ·)
+  | fuel + 1, 1 :: d :: rest => (sitems? fuel rest).map (SItem.esc d :: ·)
+  | fuel + 1, 2 :: k :: rest => (sitems? fuel rest).map (SItem.cont k :: ·)
+  | fuel + 1, 3 :: k :: d :: n :: rest =>
+    if n ≤ rest.length then (sitems? fuel (rest.drop n)).map (SItem.hexnl d (rest.take n) k :: ·) else none
+  | _, _ => none
+
+def numBody? (ip fr : List Nat) : Option NumBody :=
+  match fr, ip with
+  | d :: ds, _ => some (.frac ip d ds)
+  | [], d :: ds => some (.int d ds)
+  | [], [] => none
+
+/-- one lexeme of `Lex2`, written `kind,arg,…` (arguments: dotted hex code points) -/
+def lex2? (w : String) : Option Lex2 :=
+  match (w.splitOn ",").map fun a => (a, decCps a) with
+  | [("num", _), (_, some (d :: ds))] => some (.old (.num d ds))
+  | [("ident", _), (_, some (c :: cs))] => some (.old (.ident c cs))
+  | [("fixed", _), (n, _), (_, some w), (_, some [k])] => some (.old (.fixed n w k))
+  | [("fast", _), (_, some [c])] => some (.old (.fast c))
+  | [("pct", _), (_, some (d :: ds))] => some (.old (.pct d ds))
+  | [("dim", _), (_, some (d :: ds)), (_, some (c :: cs))] => some (.old (.dim d ds c cs))
+  | [("hash", _), (_, some (n :: ns))] => some (.old (.hash n ns))
+  | [("atkw", _), (_, some (c :: cs))] => some (.old (.atkw c cs))
+  | [("str", _), (_, some [q]), (_, some body)] => some (.str q body)
+  | [("fn", _), (_, some (c :: cs))] => some (.fn c cs)
+  | [("uri", _), (_, some [u, r, l]), (_, some body)] => some (.uri u r l body)
+  | [("ur", _), (_, some [u]), (_, some (h :: hs))] => some (.urange u h hs)
+  | [("cmt", _), (_, some body)] => some (.cmt body)
+  | [("cdc", _)] => some .cdc
+  | [("pctg", _), (_, some sg), (_, some ip), (_, some fr)] => (numBody? ip fr).map (Lex2.pctG sg ·)
+  | [("dimg", _), (_, some sg), (_, some ip), (_, some fr), (_, some (c :: cs))] =>
+      (numBody? ip fr).map (Lex2.dimG sg · c cs)
+  | [("nums", _), (_, some sg), (_, some (d :: ds))] => some (.numS sg d ds)
+  | [("numf", _), (_, some sg), (_, some ip), (_, some (d :: ds))] => some (.numF sg ip d ds)
+  | [("uri2", _), (_, some [u]), (_, some (h :: hs)), (_, some (h2 :: hs2))] => some (.urangeI u h hs h2 hs2)
+  | [("identu", _), (_, some (u :: cs))] => some (.identU u cs)
+  | [("uriq", _), (_, some [u, r, l]), (_, some w1), (_, some [q]), (_, some enc), (_, some w2)] =>
+      (sitems? (enc.length + 1) enc).map (Lex2.uriQ u r l w1 q · w2)
+  | [("identd", _), (_, some [n]), (_, some (c :: cs))] => some (.identD n c cs)
+  | [("stri", _), (_, some [q]), (_, some enc)] => (sitems? (enc.length + 1) enc).map (Lex2.strI q ·)
+  | _ => none
+
+def lex2All? : List String → Option (List Lex2)
+  | [] => some []
+  | w :: ws => match lex2? w, lex2All? ws with
+    | some t, some ts => some (t :: ts)
+    | _, _ => none
+
+def showPairs (ps : List (String × List Nat)) : String :=
+  String.join (ps.map fun p => " " ++ p.1 ++ ":" ++ encCps p.2)
+
+/-- script of consumer actions: `n` = next, `pK` = push K fresh tokens (numbered consecutively) -/
+def script? (ws : List String) (ctr : Nat) : Option (List Act) :=
+  match ws with
+  | [] => some []
+  | w :: rest =>
+    if w == "n" then (script? rest ctr).map (Act.next :: ·)
+    else if w.startsWith "p" then
+      match (w.drop 1).toNat? with
+      | some k =>
+        let ts := (List.range k).map fun i => (⟨"PUSHED", [ctr + i], 0, 0, [], [], true⟩ : Item)
+        (script? rest (ctr + k)).map (Act.push ts :: ·)
+      | none => none
+    else none
+
+def showOut : Out → String
+  | .text it => s!"T:{it.typ}:{encCps it.value}:{it.line}:{it.col}"
+  | .pushed it => s!"P:{encCps it.value}"
+  | .stop => "-"
+
 def handle (line : String) : String :=
   match words line with
   | ["tok", f, d, t] => match flag? f, flag? d, decCps t with
       | some f, some d, some t => showRes (tokenize t f d)
       | _, _, _ => "bad-op"
+  | "lex2" :: d :: ws => match flag? d, lex2All? ws with
+      | some d, some ts =>
+        let wf := ts.all fun t => decide t.WF
+        let ok := wf && !hasAt (render2 ts) charsetStart
+        s!"{if ok then 1 else 0} {encCps (render2 ts)} |" ++
+          showPairs ((expectedAll ts).filter fun p => d || p.1 != "COMMENT")
+      | _, _ => "bad-op"
+  | ["push", f, d, t, sc] => match flag? f, flag? d, decCps t, script? (sc.splitOn ".") 0 with
+      | some f, some d, some t, some acts =>
+        String.intercalate " " ((runP (initP t f d) acts).map showOut)
+      | _, _, _, _ => "bad-op"
   | ["re", n, t] => match reByName n, decCps t with
       | some r, some t => match r.first t with
           | some l => toString l
